@@ -504,7 +504,8 @@ pub struct LevelOpt {
     pub nt: u8,
     /// b: 0 absent, 1 plain, 2 with super(), 3 (extended) `{{ super() | upper }}` after the text
     pub b: u8,
-    /// where the ROOT places b: 0 bare, 1 filter section, 2 set block, 3 component call body
+    /// where the ROOT places b: 0 bare, 1 filter section, 2 set block, 3 component call body,
+    /// 4 filter in filter, 5 set block in filter, 6 filter in component call body
     pub place: u8,
 }
 
@@ -512,7 +513,16 @@ pub const A_NAMES: [&str; 6] = ["absent", "plain", "super-before", "super-after"
 pub const NN_NAMES: [&str; 5] = ["no", "plain", "super", "plain-in-filter", "super-in-filter"];
 pub const T_NAMES: [&str; 3] = ["absent", "plain", "super"];
 pub const B_NAMES: [&str; 4] = ["absent", "plain", "super", "super-as-filtered-value-after-text"];
-pub const PLACE_NAMES: [&str; 4] = ["bare", "in-filter-section", "in-set-block", "in-component-body"];
+pub const PLACE_NAMES: [&str; 7] = [
+    "bare",
+    "in-filter-section",
+    "in-set-block",
+    "in-component-body",
+    // two captures open at once (seeded change C04-2: only the innermost capture was set aside)
+    "in-filter-in-filter",
+    "in-set-block-in-filter",
+    "in-filter-in-component-body",
+];
 
 impl LevelOpt {
     pub const EMPTY: LevelOpt = LevelOpt { a: 0, nn: 0, nt: 0, b: 0, place: 0 };
@@ -582,11 +592,17 @@ impl LevelOpt {
             }
             let bb = block("b", b);
             let wrapped = |w: Wrap| Item::Wrap(w, vec![text(format!("w{k}")), bb.clone(), text(format!("v{k}"))]);
+            let wrapped2 = |outer: Wrap, inner: Wrap| {
+                Item::Wrap(outer, vec![text(format!("u{k}")), wrapped(inner), text(format!("t{k}"))])
+            };
             body.push(match self.place {
                 0 => bb.clone(),
                 1 => wrapped(Wrap::Filter),
                 2 => wrapped(Wrap::Set),
-                _ => wrapped(Wrap::Component),
+                3 => wrapped(Wrap::Component),
+                4 => wrapped2(Wrap::Filter, Wrap::Filter),
+                5 => wrapped2(Wrap::Filter, Wrap::Set),
+                _ => wrapped2(Wrap::Component, Wrap::Filter),
             });
         }
         body.push(text(format!("-s{k}.3-")));
@@ -603,7 +619,7 @@ pub fn alphabet(with_b: bool, extended: bool, root: bool) -> Vec<LevelOpt> {
     let a_max = if extended { 5 } else { 4 };
     let nn_max = if extended { 4 } else { 2 };
     for b in 0..=(if !with_b { 0u8 } else if extended { 3 } else { 2 }) {
-        for place in 0..=(if root && b != 0 { 3u8 } else { 0 }) {
+        for place in 0..=(if root && b != 0 { 6u8 } else { 0 }) {
             for a in 0..=a_max {
                 for nn in 0..=(if a == 0 { 0 } else { nn_max }) {
                     for nt in 0..=(if nn == 0 { 2u8 } else { 0 }) {
